@@ -87,3 +87,24 @@ func (r Response) MarshalXML(e *xml.Encoder, _ xml.StartElement) error {
 	_, err := r.WriteXML(e)
 	return err
 }
+
+// UnmarshalXML implements xml.Unmarshaler.
+func (r *Response) UnmarshalXML(d *xml.Decoder, start xml.StartElement) error {
+	s := struct {
+		stanza.IQ
+		Command struct {
+			Node   string `xml:"node,attr"`
+			SID    string `xml:"sessionid,attr"`
+			Status string `xml:"status,attr"`
+		} `xml:"http://jabber.org/protocol/commands command"`
+	}{}
+	err := d.DecodeElement(&s, &start)
+	if err != nil {
+		return err
+	}
+	r.IQ = s.IQ
+	r.Node = s.Command.Node
+	r.SID = s.Command.SID
+	r.Status = s.Command.Status
+	return nil
+}
